@@ -2376,7 +2376,7 @@ theorem var_text_held (existing : List (Nat × AttrV)) (pre post : List AField) 
   unfold extract
   rw [runFrom_append]
   simp only [runFrom]
-  obtain ⟨v1, h1, h2, h3⟩ := astep_var (runFrom ⟨existing, []⟩ 0 pre) (0 + pre.length) f n hv hn
+  obtain ⟨v1, h1, h2, h3⟩ := astep_var (runFrom ⟨existing, [], [], []⟩ 0 pre) (0 + pre.length) f n hv hn
   obtain ⟨v2, h4, h5, h6⟩ := runFrom_keeps_doc post _ (0 + pre.length + 1) n v1 h1 hpost
   exact ⟨v2, h4, h5.trans h2, h6.trans h3⟩
 
@@ -2389,7 +2389,7 @@ theorem type_text_held (existing : List (Nat × AttrV)) (pre post : List AField)
   unfold extract
   rw [runFrom_append]
   simp only [runFrom]
-  obtain ⟨v1, h1, h2⟩ := astep_type (runFrom ⟨existing, []⟩ 0 pre) (0 + pre.length) f n ht hn
+  obtain ⟨v1, h1, h2⟩ := astep_type (runFrom ⟨existing, [], [], []⟩ 0 pre) (0 + pre.length) f n ht hn
   obtain ⟨v2, h4, h5⟩ := runFrom_keeps_type post _ (0 + pre.length + 1) n v1 h1 hpost
   exact ⟨v2, h4, h5.trans h2⟩
 
@@ -2491,21 +2491,14 @@ theorem description_none_of_body (fs : List PField) : ∀ st : PState, st.hasBod
     have h2 : (pstep st f).description = none := by unfold pstep; cases f.tag <;> simp [hb, hd]
     exact ih _ h1 h2
 
-/-
-Full statement — FALSE of the current code:
-  theorem inherited_holds_all (f ∈ fields) : f ∈ (inheritedView docHasBody fields).otherFields
--/
+/-- **an inherited property docstring holds every field** (full since 5a184d3), with or without a description of its own -/
+theorem inherited_holds_all (docHasBody : Bool) (fields : List PField) (f : PField) (hf : f ∈ fields) :
+    f ∈ (inheritedView docHasBody fields).otherFields := hf
 
-/-- **partial**: a property docstring that has its own description is inherited with every field -/
-theorem inherited_holds_all_partial (fields : List PField) (f : PField) (hf : f ∈ fields) :
-    f ∈ (inheritedView true fields).otherFields := by
-  have : (handle true fields).description = none := description_none_of_body fields ⟨true, none, none, []⟩ rfl rfl
-  simp [inheritedView, this, hf]
-
-/-- **counterexample**: documented by `@return:` only — the override without docstring inherits nothing
-(open finding inherited-property:return-only-docstring-not-inherited) -/
-theorem inherited_holds_all_counterexample :
-    (inheritedView false [⟨.ret, 1, true⟩, ⟨.rtype, 2, true⟩]).otherFields = [] := by
+/-- **historical counterexample** (the code before 5a184d3, `inheritedViewOld`): documented by `@return:` only, the
+override without docstring inherited nothing -/
+theorem inherited_holds_all_old_counterexample :
+    (inheritedViewOld false [⟨.ret, 1, true⟩, ⟨.rtype, 2, true⟩]).otherFields = [] := by
   decide
 
 /-- whereas the defining property's own view has lost `rtype` from its fields (it became the type): reusing that
@@ -2515,3 +2508,60 @@ example : (handle true [⟨.rtype, 2, true⟩, ⟨.other, 3, true⟩]).otherFiel
   decide
 
 end Property
+
+/-! ## 21. duplicates of single-valued fields are reported (08a4c10) -/
+namespace Docstring
+open Fields
+
+theorem runPair_body_isSome (es : List PairEvent) : ∀ init : Option PairDesc,
+    ((runPair init es).bind (·.body)).isSome = ((init.bind (·.body)).isSome || es.any fun e => match e with | .desc _ => true | .type _ => false) := by
+  induction es with
+  | nil => intro init; simp [runPair]
+  | cons e es ih =>
+    intro init
+    have := ih (pairStep init e)
+    unfold runPair at this ⊢
+    rw [List.foldl_cons, this]
+    cases e <;> cases init <;> simp [pairStep]
+
+theorem runPair_type_isSome (es : List PairEvent) : ∀ init : Option PairDesc,
+    ((runPair init es).bind (·.type)).isSome = ((init.bind (·.type)).isSome || es.any fun e => match e with | .type _ => true | .desc _ => false) := by
+  induction es with
+  | nil => intro init; simp [runPair]
+  | cons e es ih =>
+    intro init
+    have := ih (pairStep init e)
+    unfold runPair at this ⊢
+    rw [List.foldl_cons, this]
+    cases e <;> cases init <;> simp [pairStep]
+
+/-- **a `@return` / `@yield` (resp. `@rtype` / `@ytype`) that replaces an earlier one is reported**: after any fields,
+the handler reports the field exactly when a field of the same kind came before -/
+theorem pair_duplicate_reported (es : List PairEvent) (t : Nat) :
+    pairDup (runPair none es) (.desc t) = (es.any fun e => match e with | .desc _ => true | .type _ => false) ∧
+    pairDup (runPair none es) (.type t) = (es.any fun e => match e with | .type _ => true | .desc _ => false) := by
+  constructor
+  · simpa [pairDup] using runPair_body_isSome es none
+  · simpa [pairDup] using runPair_type_isSome es none
+
+example : pairDupCount none [.desc 1, .type 2, .desc 3, .type 4] = 2 ∧ pairDupCount none [.type 2, .desc 1] = 0 := by decide
+
+end Docstring
+
+namespace Params
+
+/-- a second `@type n` of the docstring is reported (the first one's text is replaced) -/
+theorem type_overwrite_reported (fh : FH) (n t t0 : Nat) (h : fh.types.lookup n = some (some ⟨t0, .doc⟩)) :
+    (ReportKind.duplicateType, n) ∈ (step fh (.type n t)).reports := by
+  simp [step, h]
+
+end Params
+
+namespace Attrs
+
+/-- a second `@ivar`/`@cvar`/`@var n` (resp. `@type n`) of a module or class docstring is reported -/
+theorem var_overwrite_reported (st : AState) (i n : Nat) (f : AField) (ho : f.tag ≠ .other) (hn : f.name = some n)
+    (hseen : (n, decide (f.tag = .type)) ∈ st.seen) : i ∈ (astep st i f).duplicates := by
+  simp [astep, ho, hn, hseen]
+
+end Attrs
